@@ -1,0 +1,28 @@
+//go:build verif
+
+package logger
+
+// Contracts for govc (see /verif/DESIGN.md). Comment-only file: contributes no code.
+
+// a derived logger is a logger: both implementations return a fresh wrapper (the handlers dereference it unchecked)
+//@ interface StyledLogger.WithRequestID(requestID)
+//@   ensures res != nil
+//@ interface StyledLogger.With(args)
+//@   ensures res != nil
+
+//@ func (sl *PlainStyledLogger) With
+//@   property C05
+//@   refines StyledLogger.With
+//@   ensures res != nil
+//@ func (sl *PlainStyledLogger) WithRequestID
+//@   property C05
+//@   refines StyledLogger.WithRequestID
+//@   ensures res != nil
+//@ func (sl *PrettyStyledLogger) With
+//@   property C05
+//@   refines StyledLogger.With
+//@   ensures res != nil
+//@ func (sl *PrettyStyledLogger) WithRequestID
+//@   property C05
+//@   refines StyledLogger.WithRequestID
+//@   ensures res != nil
